@@ -374,6 +374,7 @@ func c12WorkerMain() {
 	// backstop for the heap watchdog
 	_ = syscall.Setrlimit(syscall.RLIMIT_AS, &syscall.Rlimit{Cur: 8 << 30, Max: 8 << 30})
 	debug.SetTraceback("all")
+	debug.SetMaxStack(96 << 20) // unbounded recursion is found after 96 MiB instead of 1 GiB of stack
 	c12InstallFatalTrap()
 	in := bufio.NewReaderSize(os.Stdin, 1<<20)
 	out := bufio.NewWriter(os.Stdout)
@@ -727,6 +728,25 @@ func c12ExitClass(r c12Result) string {
 					fl = fl[:j]
 				}
 				frames = append(frames, fl)
+			}
+			if strings.Contains(r.Msg, "stack overflow") || strings.Contains(l, "stack exceeds") {
+				// unbounded recursion: the frame to blame is the one that recurs - the most frequent
+				// kustomize frame of the printed trace (the innermost one is wherever the stack ran out)
+				count := map[string]int{}
+				best, bestN := "", 0
+				for _, f := range frames {
+					if strings.HasPrefix(f, c12KPrefix) {
+						sf := c12ShortFrame(f)
+						count[sf]++
+						if count[sf] > bestN || (count[sf] == bestN && sf < best) {
+							best, bestN = sf, count[sf]
+						}
+					}
+				}
+				if best == "" {
+					best = c12KFrame(frames)
+				}
+				return "exit:fatal-stack-overflow:" + best
 			}
 			return "exit:" + kind + ":" + c12KFrame(frames)
 		}
